@@ -823,7 +823,7 @@ class xRFM:
             del tree
 
             # Build new tree with improved projections
-            tree = self._build_tree(X, y, X_val, y_val, avg_M=avg_M, is_root=False,
+            tree = self._build_tree(X, y, X_val, y_val, avg_M=avg_M, is_root=True,
                                     time_limit_s=None if time_limit_s is None
                                     else (time_limit_s - (time.time() - start_time)) / (self.n_tree_iters - iter),
                                     split_tracker={'count': 0},
